@@ -11,8 +11,8 @@ import (
 
 	"github.com/awslabs/operatorpkg/status"
 	corev1 "k8s.io/api/core/v1"
-	metav1 "k8s.io/apimachinery/pkg/apis/meta/v1"
 	"k8s.io/apimachinery/pkg/api/resource"
+	metav1 "k8s.io/apimachinery/pkg/apis/meta/v1"
 	"k8s.io/apimachinery/pkg/types"
 
 	v1 "sigs.k8s.io/karpenter/pkg/apis/v1"
@@ -30,32 +30,32 @@ func init() {
 
 // Instance is the provider's ground truth about one launched machine.
 type Instance struct {
-	ProviderID   string
-	ClaimName    string
-	ClaimUID     types.UID
-	Pool         string
-	Type         *cloudprovider.InstanceType
-	Offering     *cloudprovider.Offering
-	Labels       map[string]string
-	Capacity     corev1.ResourceList
-	Allocatable  corev1.ResourceList
-	State        string // running | terminating | gone
-	deletesLeft  int
-	Created      time.Time
+	ProviderID    string
+	ClaimName     string
+	ClaimUID      types.UID
+	Pool          string
+	Type          *cloudprovider.InstanceType
+	Offering      *cloudprovider.Offering
+	Labels        map[string]string
+	Capacity      corev1.ResourceList
+	Allocatable   corev1.ResourceList
+	State         string // running | terminating | gone
+	deletesLeft   int
+	Created       time.Time
 	ReservationID string
 }
 
 // ProviderCall is one provider API call as seen at the CloudProvider boundary.
 type ProviderCall struct {
-	Seq        int
-	VTime      time.Time
-	Verb       string // create delete get list getinstancetypes isdrifted
-	ClaimName  string
-	ClaimUID   types.UID
-	ProviderID string
-	Err        string
+	Seq                 int
+	VTime               time.Time
+	Verb                string // create delete get list getinstancetypes isdrifted
+	ClaimName           string
+	ClaimUID            types.UID
+	ProviderID          string
+	Err                 string
 	HadFinalizerInStore *bool // create: did the stored NodeClaim carry the termination finalizer
-	Caller     string
+	Caller              string
 }
 
 // LaunchChoice is one (instance type, offering) pair the provider may legitimately launch.
@@ -77,21 +77,21 @@ type Provider struct {
 	Policy  string // cheapest | dearest | largest | smallest | random | index:<n>
 	Rng     *rand.Rand
 
-	Instances   map[string]*Instance // by provider id
-	Calls       []ProviderCall
-	seq         int
-	idSeq       int
+	Instances    map[string]*Instance // by provider id
+	Calls        []ProviderCall
+	seq          int
+	idSeq        int
 	reservedUsed map[string]int
 
 	// error injection
-	CreateErrs   []error                        // consumed one per Create call (nil entries = succeed)
-	CreateErrFn  func(nc *v1.NodeClaim) error   // consulted after CreateErrs
-	DeleteErrs   []error
-	GetErrs      []error
-	ListErrs     []error
-	AsyncDeletes int // Delete answers nil this many times (instance terminating) before the instance is gone
-	Drift        map[string]cloudprovider.DriftReason // by NodeClaim name
-	Repair       []cloudprovider.RepairPolicy
+	CreateErrs      []error                      // consumed one per Create call (nil entries = succeed)
+	CreateErrFn     func(nc *v1.NodeClaim) error // consulted after CreateErrs
+	DeleteErrs      []error
+	GetErrs         []error
+	ListErrs        []error
+	AsyncDeletes    int                                  // Delete answers nil this many times (instance terminating) before the instance is gone
+	Drift           map[string]cloudprovider.DriftReason // by NodeClaim name
+	Repair          []cloudprovider.RepairPolicy
 	InstanceTypeErr map[string]error
 	// OnCreate is invoked (outside the lock) after a successful launch.
 	OnCreate func(inst *Instance)
@@ -552,7 +552,7 @@ func (p *Provider) IsDrifted(_ context.Context, nc *v1.NodeClaim) (cloudprovider
 }
 
 func (p *Provider) RepairPolicies() []cloudprovider.RepairPolicy { return p.Repair }
-func (p *Provider) Name() string                                  { return "hostile" }
+func (p *Provider) Name() string                                 { return "hostile" }
 func (p *Provider) GetSupportedNodeClasses() []status.Object {
 	return []status.Object{&v1alpha1.TestNodeClass{}}
 }
